@@ -162,6 +162,8 @@ class BlockRun:
         """b x b matrix of symbols for block `row` of cache `name` in the storage convention of the code."""
         b = self.b
         tag = gen_tag or name
+        if tag is None:
+            raise Broken("block solver model: a factor cache the adjoint reads is not filled by the solver (not identified)")
         base = sp.IndexedBase(tag, real=True)
         return SmallMat(b, b, [[base[row, self.sigma[(r, c)]] for c in range(b)] for r in range(b)])
 
